@@ -1601,6 +1601,18 @@ def _sum(ip, args, kwargs, node):
 @model(sorted)
 def _sorted(ip, args, kwargs, node):
     items = list(ip.iterate(args[0], node))
+    if has_sym(items) and not kwargs and all(is_intval(x) for x in items) and len(items) <= 14:
+        # small list of symbolic integers: insertion sort, each comparison decided on the path (forks)
+        out = []
+        for x in items:
+            pos = len(out)
+            for n, y in enumerate(out):
+                c = z3.simplify(lift(x) < lift(y))
+                if (z3.is_true(c)) or (not z3.is_false(c) and ip.ctx.branch(c)):
+                    pos = n
+                    break
+            out.insert(pos, x)
+        return out
     if has_sym(items) or has_sym(kwargs):
         raise Unsupported("sorted with symbolic content")
     key = kwargs.get('key')
